@@ -92,6 +92,8 @@ def assigned(fn, stmts):
     for s in stmts:
         if isinstance(s, ast.Assign):
             out |= {t.id for t in s.targets if isinstance(t, ast.Name)}
+            if getattr(fn.ext, "setattr_", None) is not None:      # [srcgate] `x.attr = v` re-binds x to the object's new content
+                out |= {t.value.id for t in s.targets if isinstance(t, ast.Attribute) and isinstance(t.value, ast.Name)}
         elif isinstance(s, (ast.AugAssign, ast.AnnAssign)):
             if isinstance(s.target, ast.Name):
                 out.add(s.target.id)
@@ -136,7 +138,8 @@ def next_of(outs, box, node):
             if v not in env:
                 _bad("variable %s may be unbound after this statement" % v, node)
             vals.append(env[v])
-        box.append([t for _, t in vals])
+        canon = getattr(pygal._CUR["ext"], "join_type", None) or (lambda t: t)     # [srcgate] Ext.join_type: at a join, a
+        box.append([canon(t) for _, t in vals])          # narrowed view of a value is handed on as its un-narrowed type
         return "next %s" % tup([g for g, _ in vals])
     return k
 
@@ -263,6 +266,10 @@ def tr_block(fn, stmts, env, k, live):
                 v = fn.fresh("ret")
                 return "%s <~ lift %s ;;\nreturn_v %s" % (v, g, v)
             g, t = pure(fn, s.value, env)
+            if t != rt and getattr(fn.ext, "coerce", None) is not None:     # [srcgate] unit coercion into the declared result
+                g2 = fn.ext.coerce(fn, g, t, rt)
+                if g2 is not None:
+                    g, t = g2, rt
             if t != rt:
                 _bad("return of %r where %r is declared" % (t, rt), s)
             return "return_v %s" % g
@@ -317,6 +324,14 @@ def tr_simple(fn, s, env, cont):
         if len(s.targets) != 1:
             _bad("multiple assignment", s)
         tgt, val = s.targets[0], s.value
+        # [srcgate] `x.attr = v` for a local x: a primitive of the unit that re-binds x to the object's new content
+        if isinstance(tgt, ast.Attribute) and isinstance(tgt.value, ast.Name) and getattr(fn.ext, "setattr_", None):
+            r = fn.ext.setattr_(fn, s, env)
+            if r is not None:
+                g, t = r
+                nv = fn.fresh(tgt.value.id)
+                c = cont(rebind(env, tgt.value.id, nv, t))
+                return "lift %s" % g if c == "next %s" % nv else "%s <~ lift %s ;;\n%s" % (nv, g, c)
     elif isinstance(s, ast.AnnAssign):
         if s.value is None:
             _bad("annotation without value", s)
@@ -341,11 +356,15 @@ def tr_simple(fn, s, env, cont):
 
 def tr_if(fn, s, rest, env, k, live, live_rest):
     # guard: `if t: ... return` - the rest of the block goes into the other arm (keeps what t narrowed)
+    # [srcgate] opt-in Ext.guard_else: `if t: ...return  else: O` followed by R is `if t: ...return` followed by O; R
+    if ends(s.body) and s.orelse and getattr(fn.ext, "guard_else", False):
+        rest, s = list(s.orelse) + list(rest), ast.copy_location(ast.If(test=s.test, body=s.body, orelse=[]), s)
+        live_rest = names_used(rest) | live
     if ends(s.body) and not s.orelse and rest:
         calls = []
 
         def other(e):
-            if calls:
+            if calls and not getattr(fn.ext, "guard_dup", False):    # [srcgate] opt-in: copy the rest into every arm
                 raise _Dup()
             calls.append(1)
             return tr_block(fn, rest, e, k, live)
@@ -372,10 +391,18 @@ def tr_try(fn, s, env, cont, live_rest):
     if s.finalbody:
         _bad("try ... finally", s)
     classes = getattr(fn.ext, "except_classes", None) or {"Exception": None}
-    if len(s.handlers) != 1 or s.handlers[0].type is None or path_of(s.handlers[0].type) not in classes:
+    # [srcgate] `except (C1, C2, ...)`: a tuple of at least two known classes other than Exception -> the disjunction of
+    # their predicates
+    h0 = s.handlers[0] if len(s.handlers) == 1 else None
+    if h0 is not None and isinstance(h0.type, ast.Tuple) and len(h0.type.elts) >= 2 \
+            and all(path_of(c) in classes and classes[path_of(c)] is not None for c in h0.type.elts):
+        tpred = "(fun x => %s)" % " || ".join("%s x" % classes[path_of(c)] for c in h0.type.elts)
+    else:
+        tpred = None
+    if tpred is None and (len(s.handlers) != 1 or s.handlers[0].type is None or path_of(s.handlers[0].type) not in classes):
         _bad("a try statement other than `try ... except %s [as e] ... [else ...]`" % " | ".join(sorted(classes)), s)
     h = s.handlers[0]
-    pred = classes[path_of(h.type)] if path_of(h.type) != "Exception" else None
+    pred = tpred if tpred is not None else classes[path_of(h.type)] if path_of(h.type) != "Exception" else None
     on = "" if pred is None else "_on %s" % pred
     if h.name and h.name in env:
         _bad("the except clause's name shadows a local variable (Python unbinds it after the handler)", h)
@@ -515,10 +542,16 @@ def translate(repo, spec):
         nd = defs.get(fs["name"])
         if nd is None:
             raise Unsupported("function %s not found in %s" % (fs["name"], spec["file"]))
-        if not isinstance(nd, ast.AsyncFunctionDef):
+        # [srcgate] spec keys "sync" (a plain `def`), "decorators" (the exact decorator expressions the unit reads as a
+        # precondition on the parameters), "fix" (the parameter the self-recursive function is structurally recursive on)
+        if fs.get("sync"):
+            if not isinstance(nd, ast.FunctionDef):
+                _bad("%s is not a plain def" % fs["name"], nd)
+        elif not isinstance(nd, ast.AsyncFunctionDef):
             _bad("%s is not an async def" % fs["name"], nd)
-        if nd.decorator_list:
-            _bad("decorated function", nd)
+        if [ast.unparse(d) for d in nd.decorator_list] != list(fs.get("decorators", [])):
+            _bad("decorated function" if not fs.get("decorators") else "decorators of %s are %r" % (
+                nd.name, [ast.unparse(d) for d in nd.decorator_list]), nd)
         a = nd.args
         if a.kwonlyargs or a.posonlyargs or a.kw_defaults:
             _bad("parameter list of %s" % nd.name, nd)
@@ -556,9 +589,10 @@ def translate(repo, spec):
             body = tr_block(fn, stmts, env, off_end, set())
         ps = " ".join(([fs["gparams"]] if fs.get("gparams") else []) + ["(%s : %s)" % (p, gty(t)) for p, t in params])
         gname = fs.get("gname", nd.name)
-        out.append("(* %s, lines %d-%d *)\nDefinition %s %s : %s %s :=\n%s (\n%s)." % (
-            spec["file"], nd.lineno, nd.end_lineno, gname, ps, spec.get("monad", "M"), paren(gty(rt)) if rt else "unit",
-            "run_fn_ret" if rt else "run_fn", indent(body)))
+        kw, struct = ("Fixpoint", " {struct %s}" % fs["fix"]) if fs.get("fix") else ("Definition", "")     # [srcgate]
+        out.append("(* %s, lines %d-%d *)\n%s %s %s%s : %s %s :=\n%s (\n%s)." % (
+            spec["file"], nd.lineno, nd.end_lineno, kw, gname, ps, struct, spec.get("monad", "M"),
+            paren(gty(rt)) if rt else "unit", "run_fn_ret" if rt else "run_fn", indent(body)))
         info["functions"][nd.name] = dict(lines=[nd.lineno, nd.end_lineno], backend="monadic")
     head = "(* GENERATED on every run by harness/pygal_m.py from %s (sha256 %s) - do not edit *)\n" % (
         spec["file"], info["sha256"][:16])
